@@ -570,7 +570,7 @@ var (
 // c20Tofu is a compiled bundle with one template without params.
 func c20Tofu() *soyhtml.Tofu {
 	c20TofuOnce.Do(func() {
-		cb, err, pn := compileBundle([]string{"c20.soy"}, []string{"{namespace c20}\n/** */\n{template .t}ok{/template}\n"}, nil)
+		cb, err, pn := compileBundle([]string{"c20.soy"}, []string{"{namespace c20}\n/** */\n{template .t}ok{/template}\n/**\n * @param? name\n * @param? Name\n * @param? when\n * @param? When */\n{template .fields autoescape=\"false\"}{$name ?: ''}|{$Name ?: ''}|{$When ?: ''}|{$when ?: ''}{/template}\n"}, nil)
 		if err != nil || pn != nil {
 			panic(fmt.Sprint("harness: ", err, pn))
 		}
@@ -675,6 +675,28 @@ func checkC20(c C20Case) Verdict {
 			if got, _ := fromData(v); !ref.DeepEqual(got, exp) {
 				return bad(true, "%s converted under options %+v (after a conversion under %+v) gave %#v, want %#v", r.T, alt, opts, got, exp)
 			}
+		}
+	}
+	// Tofu.Render converts with data.DefaultStructOptions as they are when it is called ("the caller may
+	// update those options to change the behavior of this function"), not as they were when the Tofu was made
+	{
+		saved := data.DefaultStructOptions
+		data.DefaultStructOptions = opts
+		when := time.Unix(1000000000, 0).UTC()
+		var b1, b2 bytes.Buffer
+		var e1, e2 error
+		pn := catch(func() {
+			e1 = c20Tofu().Render(&b1, "c20.fields", S1{Name: "nm", Age: 3})
+			e2 = c20Tofu().Render(&b2, "c20.fields", map[string]interface{}{"when": when})
+		})
+		data.DefaultStructOptions = saved
+		want1 := "nm|||"
+		if !c.LowerCamel {
+			want1 = "|nm||"
+		}
+		want2 := "|||" + when.Format(c.TimeFormat)
+		if pn != nil || e1 != nil || e2 != nil || b1.String() != want1 || b2.String() != want2 {
+			return bad(true, "Tofu.Render with data.DefaultStructOptions = %+v (set after the Tofu was built) wrote %q and %q (errors %v %v, panic %v), want %q and %q", opts, b1.String(), b2.String(), e1, e2, pn, want1, want2)
 		}
 	}
 	// equality laws on the pair (and each value with itself)
